@@ -102,7 +102,8 @@ VARIANTS = {
     "asan": ("RelWithDebInfo",
              "-D%s -O1 -g -fsanitize=address,undefined -fno-sanitize-recover=all -fno-omit-frame-pointer -D_GLIBCXX_ASSERTIONS" % GUARD,
              None, {}),
-    "tsan": ("RelWithDebInfo", "-D%s -O1 -g -fsanitize=thread" % GUARD, "clang++", {}),
+    # C10 runs WITHOUT the hooks: their trace counters are deliberately not thread-safe
+    "tsan": ("RelWithDebInfo", "-O1 -g -fsanitize=thread", "clang++", {}),
 }
 
 
